@@ -4,7 +4,7 @@ id=$1; shift
 cd /verif
 if [ -n "$(git -C /repo status --porcelain)" ]; then echo "refusing: /repo dirty"; exit 2; fi
 cp -r evidence /tmp/evbak.$$
-git -C /repo apply seeded/$id/patch.diff || { echo "$id PATCH-DOES-NOT-APPLY"; rm -rf /tmp/evbak.$$; exit 1; }
+git -C /repo apply /verif/seeded/$id/patch.diff || { echo "$id PATCH-DOES-NOT-APPLY"; rm -rf /tmp/evbak.$$; exit 1; }
 for c in "$@"; do
   out=$(./check $c --tier quick 2>&1); rc=$?
   key=$(echo "$out" | grep -m1 "key=" | cut -c1-160)
